@@ -31,7 +31,7 @@ import (
 
 const (
 	vX02Cap      = 10 * time.Second       // nothing is waited for longer than this
-	vX02Unserved = 800 * time.Millisecond // an answer is given up when the partition was not served for this long
+	vX02Unserved = 500 * time.Millisecond // an answer is given up when the partition was not served for this long
 )
 
 type vX02SubSt struct {
@@ -72,6 +72,7 @@ type vX02Event struct {
 	Cfg  map[string]interface{} `json:"cfg,omitempty"`
 	St   vX02State              `json:"st"`
 	Obs  vX02Obs                `json:"obs"`
+	Wall int                    `json:"wall"` // ms since the behaviour started (information)
 }
 
 // ---- gate -------------------------------------------------------------------
@@ -161,6 +162,7 @@ type vX02Run struct {
 	subs   map[string]*vX02Sub
 	pend   *vX02Pend
 	act    []time.Time  // per partition: lower bound of the last activity that re-arms the auto-pause timer
+	risky  []bool       // per partition: an activity arrived when the timer may already have decided to pause (the pause may still land)
 	objs   []*partition // partition objects seen at the end of the last step
 }
 
@@ -553,6 +555,7 @@ func (r *vX02Run) state(callStart time.Time, publishedOK int) vX02State {
 		st.RA = stream.GetResumeAll()
 	}
 	now := time.Now()
+	pausedNow := make([]bool, r.n)
 	for p := 0; p < r.n; p++ {
 		part := r.part(p)
 		var paused, ppaused, ro, pro, lead, nsub bool
@@ -586,8 +589,14 @@ func (r *vX02Run) state(callStart time.Time, publishedOK int) vX02State {
 			// activity that re-arms the auto-pause timer, proven: an acknowledged publish to the
 			// partition, or a new partition object (leader start) - not before the call started
 			if r.objs[p] != part || publishedOK == p {
+				// the timer decides and then proposes the pause through Raft: a decision taken before this
+				// activity can still land after it
+				if r.auto > 0 && !r.act[p].IsZero() && now.Sub(r.act[p]) >= r.auto {
+					r.risky[p] = true
+				}
 				r.act[p] = callStart
 			}
+			pausedNow[p] = paused
 		}
 		r.objs[p] = part
 		st.Paused, st.PPaused = append(st.Paused, paused), append(st.PPaused, ppaused)
@@ -600,7 +609,10 @@ func (r *vX02Run) state(callStart time.Time, publishedOK int) vX02State {
 	now = time.Now()
 	for p := 0; p < r.n; p++ {
 		st.Q = append(st.Q, int(now.Sub(r.act[p])/time.Millisecond))
-		st.MF = append(st.MF, r.auto > 0 && now.Sub(r.act[p]) >= r.auto)
+		st.MF = append(st.MF, r.auto > 0 && (now.Sub(r.act[p]) >= r.auto || r.risky[p]))
+		if pausedNow[p] {
+			r.risky[p] = false // it has landed
+		}
 	}
 	for _, s := range r.subNames() {
 		sub := r.subs[s]
@@ -624,13 +636,13 @@ func (r *vX02Run) create() (string, string) {
 		return err
 	})
 	if res == "ok" {
-		r.waitLeading()
+		r.waitLeading(false)
 	}
 	return res, text
 }
 
 // waitLeading: every partition that is not paused starts its leader loops (bounded wait)
-func (r *vX02Run) waitLeading() {
+func (r *vX02Run) waitLeading(afterReplay bool) {
 	deadline := time.Now().Add(vX02Cap)
 	for time.Now().Before(deadline) {
 		ok := true
@@ -640,7 +652,8 @@ func (r *vX02Run) waitLeading() {
 				continue
 			}
 			part.mu.RLock()
-			if !part.paused && !part.isLeading {
+			// (a partition still in recovery mode after the replay has finished will not be started)
+			if !part.paused && !part.isLeading && !(afterReplay && part.recovered) {
 				ok = false
 			}
 			part.mu.RUnlock()
@@ -670,7 +683,7 @@ func (r *vX02Run) restart(snap bool) (string, string) {
 	if err := r.srv.getRaft().Barrier(vX02Cap).Error(); err != nil {
 		return "other:barrier", err.Error()
 	}
-	r.waitLeading()
+	r.waitLeading(true)
 	return "ok", ""
 }
 
@@ -727,6 +740,7 @@ func TestVerifX02(t *testing.T) {
 		r.subs = map[string]*vX02Sub{}
 		r.pend = nil
 		r.act = make([]time.Time, r.n)
+		r.risky = make([]bool, r.n)
 		r.objs = make([]*partition, r.n)
 		idleCap := int(vIntDef(b.Cfg, "idlecap", 14*vIntDef(b.Cfg, "auto", 0)))
 
@@ -738,6 +752,7 @@ func TestVerifX02(t *testing.T) {
 		emit := func(a string, args map[string]interface{}, obs vX02Obs, callStart time.Time, pubOK int) {
 			r.settle()
 			ev := vX02Event{T: b.ID, A: a, Args: args, St: r.state(callStart, pubOK), Obs: obs}
+			ev.Wall = int(time.Since(t0) / time.Millisecond)
 			if a == "Open" {
 				ev.Cfg = map[string]interface{}{"auto": r.auto > 0, "dis": r.dis, "parts": r.n}
 			}
@@ -886,6 +901,9 @@ func TestVerifX02(t *testing.T) {
 				obs.Res, obs.Err = r.restart(vBool(step, "snap"))
 			case "Idle":
 				r.idle(idleCap)
+				for p := range r.risky {
+					r.risky[p] = false // whatever was in flight has landed
+				}
 				obs.Res = "ok"
 			case "Wait":
 				time.Sleep(r.auto * time.Duration(vInt(step, "pct")) / 100)
@@ -900,11 +918,11 @@ func TestVerifX02(t *testing.T) {
 		// clean up: nothing of this behaviour keeps running
 		if r.pend != nil {
 			close(r.pend.release)
+			r.pend.cancel() // nobody waits for the answer any more
 			select {
 			case <-r.pend.result:
 			case <-time.After(vX02Cap):
 			}
-			r.pend.cancel()
 			if r.pend.sub != nil {
 				r.subs[r.pend.s] = r.pend.sub
 			}
